@@ -159,6 +159,24 @@ theorem C12_readFrom_fragInv (d : Container) : Rd.FragInv (readRd d) := fragInv_
 
 theorem C12_readFrom_extStable (d : Container) : Rd.ExtStable (readRd d) := extStable_readRd d
 
+/-- `ReadFrom` fully determines the container from the wire bytes: the prior container enters only through its
+configuration and its length.  Two destinations `d₁ d₂` of the same configuration and length — whatever palette
+object, logical width, storage width, mask and longs they held, e.g. after any sequence of earlier reloads
+(width w, then single-valued, then w again; same width class with another palette) — give on EVERY stream the
+same outcome and residual, and on success the same logical width, palette and storage up to the spare capacity
+of the backing array, hence the same answer to every `Get` -/
+theorem C12_reload_independent (d₁ d₂ : Container) (hcfg : d₁.cfg = d₂.cfg) (hlen : d₁.data.length = d₂.data.length)
+    (s : Stream) :
+    (d₁.readFrom s).1 = (d₂.readFrom s).1 ∧ (d₁.readFrom s).2.2 = (d₂.readFrom s).2.2 ∧
+      (∀ n, (d₁.readFrom s).1 = .ok n →
+        (d₁.readFrom s).2.1.bits = (d₂.readFrom s).2.1.bits ∧ (d₁.readFrom s).2.1.pal = (d₂.readFrom s).2.1.pal ∧
+        SameButSpare (d₁.readFrom s).2.1.data (d₂.readFrom s).2.1.data ∧
+        ∀ i, (d₁.readFrom s).2.1.get i = (d₂.readFrom s).2.1.get i) := by
+  obtain ⟨h1, h2, h3⟩ := readFrom_indep d₁ d₂ hcfg hlen s
+  refine ⟨h1, h2, fun n hn => ?_⟩
+  obtain ⟨a, _, c, d⟩ := h3 n hn
+  exact ⟨a, c, d, get_of_same c d⟩
+
 /-! ### containers built from a saved palette + data (the repaired constructors) -/
 
 /-- palette of ≥ 2 entries, indices inside it, packed at the save format's width for the palette size: the
@@ -223,5 +241,17 @@ example :
     (match Container.withData ⟨.biomes, 6⟩ 4 (some (pack 3 [4, 0, 2, 3])) [10, 11, 12, 13, 14] with
      | .ok c => (List.range 4).map fun (k : Nat) => c.get (k : Int)
      | _ => []) = [.ok 14, .ok 10, .ok 12, .ok 13] := by decide +kernel
+
+/-- one destination reloaded at 4 bits, then single-valued (width 0), then 4 bits again: every reload shows
+the source's entries, and a `Set` afterwards lands -/
+example :
+    let rd := fun (d : Container) (bs : Bytes) => (d.readFrom (Stream.ofBytes bs)).2.1
+    let all := fun (d : Container) => (List.range 4).map fun (k : Nat) => d.get (k : Int)
+    let d1 := rd (Container.new ⟨.blocks, 15⟩ 4 9) [4, 2, 5, 6, 1, 0, 0, 0, 0, 0, 0, 0x10, 0x10]
+    let d2 := rd d1 [0, 7, 0]
+    let d3 := rd d2 [4, 2, 8, 3, 1, 0, 0, 0, 0, 0, 0, 0x01, 0x01]
+    (all d1, all d2, all d3, all (d3.set 2 8).2) =
+      ([.ok 5, .ok 6, .ok 5, .ok 6], [.ok 7, .ok 7, .ok 7, .ok 7], [.ok 3, .ok 8, .ok 3, .ok 8],
+       [.ok 3, .ok 8, .ok 8, .ok 8]) := by decide +kernel
 
 end GoMC.Props.C12
